@@ -9,6 +9,11 @@ from .jacobi import (
 )
 
 
+def _per_mode(cs, x):
+    """Reshape per-order constants cs (N,) or (N,1) to broadcast against modes of shape (N, *x.shape)."""
+    return np.reshape(cs, (-1,) + (1,) * x.ndim)
+
+
 def cheby1(n, x):
     """Chebyshev polynomial of the first kind of order n.
 
@@ -47,7 +52,7 @@ def cheby1_seq(ns, x):
     ns = list(ns)
     cs = 1/jacobi_seq(ns, -.5, -.5, np.ones(1, dtype=x.dtype))
     seq = jacobi_seq(ns, -.5, -.5, x)
-    return seq*cs
+    return seq*_per_mode(cs, x)
 
 
 def cheby1_der(n, x):
@@ -88,7 +93,7 @@ def cheby1_der_seq(ns, x):
     ns = list(ns)
     cs = 1/jacobi_seq(ns, -.5, -.5, np.ones(1, dtype=x.dtype))
     seq = jacobi_der_seq(ns, -.5, -.5, x)
-    return seq*cs
+    return seq*_per_mode(cs, x)
 
 
 def cheby2(n, x):
@@ -135,7 +140,7 @@ def cheby2_seq(ns, x):
     ns = np.asarray(ns)
     cs = (ns+1)/np.squeeze(jacobi_seq(ns, .5, .5, np.ones(1, dtype=x.dtype)))
     seq = jacobi_seq(ns, .5, .5, x)
-    return seq*cs[:, np.newaxis]
+    return seq*_per_mode(cs, x)
 
 
 def cheby2_der(n, x):
@@ -176,7 +181,7 @@ def cheby2_der_seq(ns, x):
     ns = np.asarray(ns)
     cs = (ns + 1)/np.squeeze(jacobi_seq(ns, .5, .5, np.ones(1, dtype=x.dtype)))
     seq = jacobi_der_seq(ns, .5, .5, x)
-    return seq*cs[:, np.newaxis]
+    return seq*_per_mode(cs, x)
 
 
 def cheby3(n, x):
@@ -217,7 +222,7 @@ def cheby3_seq(ns, x):
     ns = list(ns)
     cs = 1/jacobi_seq(ns, -.5, .5, np.ones(1, dtype=x.dtype))
     seq = jacobi_seq(ns, -.5, .5, x)
-    return seq*cs
+    return seq*_per_mode(cs, x)
 
 
 def cheby3_der(n, x):
@@ -258,7 +263,7 @@ def cheby3_der_seq(ns, x):
     ns = list(ns)
     cs = 1/jacobi_seq(ns, -.5, .5, np.ones(1, dtype=x.dtype))
     seq = jacobi_der_seq(ns, -.5, .5, x)
-    return seq*cs
+    return seq*_per_mode(cs, x)
 
 
 def cheby4(n, x):
@@ -299,7 +304,7 @@ def cheby4_seq(ns, x):
     ns = np.asarray(ns)
     cs = (2*ns+1)/np.squeeze(jacobi_seq(ns, .5, -.5, np.ones(1, dtype=x.dtype)))
     seq = jacobi_seq(ns, .5, -.5, x)
-    return seq*cs[:, np.newaxis]
+    return seq*_per_mode(cs, x)
 
 
 def cheby4_der(n, x):
@@ -340,4 +345,4 @@ def cheby4_der_seq(ns, x):
     ns = np.asarray(ns)
     cs = (2*ns+1)/np.squeeze(jacobi_seq(ns, .5, -.5, np.ones(1, dtype=x.dtype)))
     seq = jacobi_der_seq(ns, .5, -.5, x)
-    return seq*cs[:, np.newaxis]
+    return seq*_per_mode(cs, x)
